@@ -31,6 +31,8 @@ ASSUMPTIONS = [
     ".min/.max over one-element non-rational sets and over sets of sets are not asserted either way",
 ]
 BUDGET = {"quick": 900, "thorough": 18000}
+# coverage-guided twins (thorough tier): part name -> executions per shard; see core.cover
+COVER = {"minimal-parens": 4000, "ill-typed": 4000}
 
 ROOT = "ns"
 INT64 = (-(2**63), 2**63 - 1)
